@@ -71,7 +71,8 @@ SPECS = {
     ),
     "C02": dict(
         title="glitch freedom",
-        streams=[("binds", 400, 40000, 40), ("basic", 150, 20000, 30), ("glitch", 300, 30000, 40), ("direct", 400, 40000, 0)],
+        streams=[("binds", 400, 40000, 40), ("basic", 150, 20000, 30), ("glitch", 300, 30000, 40), ("direct", 400, 40000, 0),
+                 ("rhsheights", 200, 20000, 0)],
         proj=dict(keep_ops=("stabilise",), keep_events=("inv", "foldcall", "bindrun", "rec")),
         oracle=O.oracle_glitch_free, profiles=("debug", "release"), dump=True,
         nontrivial=lambda src, ops: any(len([e for e in o.events if e.startswith("inv")]) >= 2 for o in ops),
@@ -79,7 +80,7 @@ SPECS = {
     ),
     "C03": dict(
         title="bind scopes",
-        streams=[("binds", 500, 40000, 40), ("exports", 400, 30000, 40), ("direct", 300, 30000, 0)],
+        streams=[("binds", 500, 40000, 40), ("exports", 400, 30000, 40), ("direct", 300, 30000, 0), ("rhsheights", 150, 15000, 0)],
         proj=dict(keep_ops=("stabilise", "read"), keep_events=("inv", "bindrun", "foldcall", "upd", "invalidate")),
         oracle=O.oracle_bind_scopes, profiles=("debug", "release"), dump=True,
         nontrivial=lambda src, ops: any("gen=" in e and "gen=0" not in e for o in ops for e in o.events if e.startswith("bindrun")),
@@ -113,9 +114,10 @@ SPECS = {
     "C07": dict(
         title="observer values move only at stabilise boundaries",
         streams=[("reads", 1200, 40000, 40), ("writes", 600, 30000, 35)],
-        # closures that write variables: the python reference does not follow those writes, so on that stream only
-        # model and crate are compared (reads from top level and from inside closures)
-        no_oracle_profiles=("writes",),
+        # closures that write variables: the python value reference does not follow those writes; on that stream
+        # model and crate are compared (reads from top level and from inside closures) and the write machine's
+        # oracle checks what observers of variables return
+        oracle_by_profile={"writes": lambda s, o, t: O.oracle_vars(s, o, t, check_reads=True)},
         proj=dict(keep_ops=("read",), keep_events=("effread",)),
         oracle=lambda s, o, t: O.oracle_values(s, o, t, check_frame=True),
         profiles=("debug",), dump=False,
@@ -152,7 +154,7 @@ SPECS = {
     "C11": dict(
         title="bookkeeping audit after every action",
         streams=[("basic", 300, 20000, 40), ("binds", 300, 20000, 40), ("drops", 300, 20000, 40), ("subs", 250, 20000, 40),
-                 ("direct", 300, 20000, 0)],
+                 ("direct", 300, 20000, 0), ("rhsheights", 150, 15000, 0)],
         proj=dict(keep_ops=None, keep_events=("rec", "nec", "unnec", "invalidate"), dump=True, sort_events=False),
         oracle=O.oracle_audit, profiles=("debug",), dump=True,
         nontrivial=lambda src, ops: sum(1 for l in src if l == "stabilise") >= 2,
@@ -193,6 +195,11 @@ HANDLE_MAKERS = ("var", "pair", "const", "map", "mapref", "mapold", "fold", "zip
                  "mapexport", "subscribe", "memonew", "memocall", "expert", "varmap", "permapi", "permapiom", "adddep")
 
 
+def oracle_for(spec, hid):
+    """the oracle used for a history: per stream when the spec says so"""
+    return spec.get("oracle_by_profile", {}).get(str(hid).rsplit("-", 1)[0], spec["oracle"])
+
+
 def shrink(pid, spec, impl, v, rounds=6):
     """greedy reduction of a failing history: cut the tail after the failing operation, then drop, one at a time,
     operations that create no handle (writes, stabilises, reads, drops, cutoffs ...) as long as the oracle still fails on
@@ -208,7 +215,7 @@ def shrink(pid, spec, impl, v, rounds=6):
         for i, c in enumerate(cands):
             ops, tail = T.parse_trace(out.get(f"s{i}", []))
             try:
-                why = spec["oracle"](c, ops, tail)
+                why = oracle_for(spec, v.get("history", ""))(c, ops, tail)
             except Exception:
                 why = None
             res.append(why)
@@ -295,7 +302,8 @@ def run(pid, tier, seed):
             pi = proj(il, lines, **spec["proj"])
             d = ec.first_diff(pm, pi)
             try:
-                why = None if hid.rsplit("-", 1)[0] in spec.get("no_oracle_profiles", ()) else spec["oracle"](lines, iops, itail)
+                pname = hid.rsplit("-", 1)[0]
+                why = None if pname in spec.get("no_oracle_profiles", ()) else oracle_for(spec, hid)(lines, iops, itail)
             except Exception as e:     # an oracle that cannot parse the trace is itself a finding
                 why = f"oracle could not evaluate the trace: {type(e).__name__}: {e}"
             if why:
@@ -391,7 +399,7 @@ def replay(path):
         else:
             print(f"model and crate agree on the projection of {pid} ({len(pi)} lines)")
         try:
-            why = spec["oracle"](lines, iops, itail)
+            why = oracle_for(spec, r.get("history", ""))(lines, iops, itail)
         except Exception as e:
             why = f"oracle could not evaluate the trace: {type(e).__name__}: {e}"
         if why:
